@@ -24,7 +24,7 @@ prop("C01", "bbs",
      "real KeyGen on seeded key material; each case runs sign, verify, to_bytes/from_bytes, verify of the decoded "
      "signature, and the None/empty equivalences. distinct_nontrivial counts distinct case tuples (all are "
      "non-trivial: every case signs and verifies).",
-     BBS_BASE, (800, 4000), (600, 3600),
+     BBS_BASE, (800, 3000), (600, 3600),
      exhaustive_subspaces=["L in 0..=3 x 6 header classes x 6 message classes x 2 suites"])
 
 prop("C02", "bbs",
@@ -46,7 +46,7 @@ prop("C03", "bbs",
      "runs proof_gen (production randomness; the hook must see exactly 5+U draws), length check 272+32U, proof_verify, "
      "to_bytes/from_bytes equality and proof_verify of the decoded proof; None/empty argument variants alternate. "
      "All 2^L subsets for small L, structured + random subsets for large L. Every case is non-trivial.",
-     BBS_BASE, (3000, 30000), (900, 7200),
+     BBS_BASE, (3000, 20000), (900, 7200),
      exhaustive_subspaces=["all 2^L disclosure sets for L = 0..=8 (quick) / 0..=11 (thorough), both suites"])
 
 prop("C04", "bbs",
@@ -99,7 +99,7 @@ prop("C07", "bbs",
      "extraction on every pair of transcripts of the same signature must not return e / a hidden message / the blind; no "
      "32/48-byte window (octets and JSON) equals a hidden scalar, e, the blind factor or A; bias screen on raw draws (7 sigma).",
      BBS_BASE + ["a predictable but non-repeating, well-distributed generator is indistinguishable for this monitor"],
-     (2000, 10000), (600, 3600), sanitizer="tsan")
+     (2000, 8000), (600, 3600), sanitizer="tsan")
 
 prop("C08", "bbs",
      "one case = (entry point, content class, length / list class / count). Every call runs under catch_unwind in a build "
@@ -158,7 +158,7 @@ prop("C11", "bbs",
      "create(n, a) for 7 api ids x 2 expanders; one global set of compressed points decides duplicate-freeness within and "
      "disjointness across all (expander, api id) sets; none is the identity, +-G1 base point or either suite's P1; "
      "create(n,a)[..k] == create(k,a) for k<=16, powers of two, n-1; None == empty api id.",
-     BBS_BASE, (1500, 8000), (600, 3600))
+     BBS_BASE, (1500, 4000), (600, 3600))
 
 prop("C12", "bbs",
      "one case = (suite, L, header class, position, step kind). History monitor: from an honest signature, a seeded walk of updates "
@@ -167,7 +167,7 @@ prop("C12", "bbs",
      "by the independent reference (path independence); verify(earlier different vectors) = Err; an update stating a wrong old value "
      "does not verify for the intended vector. Out-of-range positions {L, L+1, 2L, 2^32, usize::MAX-1, usize::MAX} and n = usize::MAX "
      "must return Err (a panic is a violation: build has overflow checks).",
-     BBS_BASE, (1500, 20000), (600, 3600), profile="checked")
+     BBS_BASE, (1500, 12000), (600, 3600), profile="checked")
 
 prop("C13", "cl",
      "one case = (CL suite, n attributes, attribute-class mix, edit kind). Keys, bases and commitment keys come from the real "
@@ -177,7 +177,7 @@ prop("C13", "cl",
      "replaced; the secret-key-free derivation (e, s, v*a_i^k) for m_i + k*e with k in {1, 2, 1024, -1, -2} (also the shifted "
      "vector with the original signature); m_i + 2^lm; negative attribute; swapped positions; dropped non-zero attribute; 18 "
      "edits of (e, s, v); reversed / other bases; other key; b<->c. Attribute classes: 0, 1, 2^lm-1, hash-derived, random.",
-     CL_BASE, (2000, 8000), (900, 7200))
+     CL_BASE, (2000, 6000), (900, 10800))
 
 prop("C18", "cl",
      "one case = one generated key pair (with its bases and commitment keys) or one (random function, size class). The worker "
@@ -187,7 +187,7 @@ prop("C18", "cl",
      "range, gcd and Jacobi symbol +1 are checkable (factorisation is discarded by the API). In the worker: to_bytes/from_bytes "
      "and serde round trips for pk, sk, key pair, commitment key, bases, signature; random_bits(n) for n in {1,2,8,64,255,256,257,"
      "1024,1536}: exactly n bits, top bit set, no repeats for n>=64; rand_int(a,b) in [a,b] incl. a=b, negative a, both end points reachable.",
-     CL_BASE, (1500, 9000), (900, 7200), min_counters={"key_pairs_recorded": 3})
+     CL_BASE, (1500, 6000), (900, 10800), min_counters={"key_pairs_recorded": 3})
 
 prop("C14", "cl",
      "one case = (CL suite, n, hidden set U, with/without trusted-party commitment, edit kind / tampered field class). Fresh keys, "
@@ -198,7 +198,7 @@ prop("C14", "cl",
      "does not return; its panic is the refusal): commitment to other attributes, commitment value + 1, every other hidden set, "
      "other bases, other pk, other trusted commitment; every integer leaf of the serialized ZKPoK +1 / -1 / zero and sibling "
      "swaps (every field class at least once), blind_sign attempted on a sample of tampered proofs.",
-     CL_BASE, (600, 6000), (1800, 10800),
+     CL_BASE, (600, 2500), (1800, 14400),
      exhaustive_subspaces=["all non-empty hidden subsets for n = 1..=3 (quick) / 1..=5 (thorough), with and without trusted commitment"],
      min_counters={"zkpok_tampered_variants": 200})
 
@@ -210,7 +210,7 @@ prop("C15", "cl",
      "difference, proof of another signature, proof generated from a mismatching signature; every integer leaf of the serialized "
      "proof +1 / -1 / zero and sibling swaps for selected proofs. (An extra / dropped attribute equal to 0 contributes a^0 = 1 and "
      "is the same statement: not asserted.)",
-     CL_BASE, (500, 5000), (1800, 10800),
+     CL_BASE, (500, 2000), (1800, 14400),
      exhaustive_subspaces=["all hidden subsets for n = 1..=3 (quick) / 1..=5 (thorough)"],
      min_counters={"proof_tampered_variants": 200})
 
@@ -223,7 +223,7 @@ prop("C16", "cl",
      "a-1, b+1, b+2^64, 10b, a-2^64, a random group element and the same value under other randomness, in four variants (recompute "
      "E_*_1 keeping all sub-proofs; recompute E_*_2; replace E only; recompute E_*_1 and re-point the square proofs' E) => false. "
      "Every integer leaf +1 / -1 / zero and sibling swaps for selected proofs => false. Domain 0 <= a < b.",
-     CL_BASE, (1500, 12000), (1800, 10800), min_counters={"transplants": 200, "proof_tampered_variants": 100})
+     CL_BASE, (1500, 6000), (1800, 14400), min_counters={"transplants": 200, "proof_tampered_variants": 100})
 
 prop("C17", "cl",
      "one case = one honest serialized proof (issuance ZKPoK for every non-empty hidden set, signature PoK for every hidden set, "
@@ -234,7 +234,7 @@ prop("C17", "cl",
      "from multi-base commitments; and complete openings (g^leaf1 * h^leaf2 == value) made of proof fields only. A violation names "
      "the leaking (value field, randomness field) pair and the secret.",
      CL_BASE + ["secrets internal to proof_gen (w, rw, rx, re) are only tested through fields of the proof itself"],
-     (20, 60), (1800, 10800), min_counters={"dictionary_attacks_run": 40, "modular_exponentiations": 3000})
+     (20, 40), (1800, 14400), min_counters={"dictionary_attacks_run": 40, "modular_exponentiations": 3000})
 
 prop("C19", "cl",
      "one case = one honest serialized proof (as C17). For every integer leaf s, every Fiat-Shamir challenge c recomputable from "
@@ -245,7 +245,7 @@ prop("C19", "cl",
      "attacker's inversion of Boudot's square decomposition x' = (floor(d/c)^2 + aa)/2^T resp. (bb - floor(d/c)^2)/2^T.",
      CL_BASE + ["with correctly sized masks (top bit forced by random_bits) the bound holds deterministically for s/c and with "
                 "probability > 1 - 2^-190 for s/s': no false alarms"],
-     (20, 60), (1800, 10800), min_counters={"divisions": 50000, "boudot_inversions_run": 50})
+     (20, 40), (1800, 14400), min_counters={"divisions": 50000, "boudot_inversions_run": 50})
 
 
 def post_C13(drv, res, binary, tier, seed):
